@@ -11,6 +11,7 @@ import Driver.Toc
 import Driver.Latex
 import Driver.Wrap
 import Driver.State
+import Driver.Footnotes
 open Lean
 
 def dispatch (op : String) (j : Json) : Except String Json :=
@@ -28,6 +29,8 @@ def dispatch (op : String) (j : Json) : Except String Json :=
   | "md.prefix" => Driver.Wrap.prefixOp j
   | "md.budget" => Driver.Wrap.budgetOp j
   | "state.run" => Driver.State.runOp j
+  | "footnotes.of" => Driver.Footnotes.ofOp j
+  | "label.normalize" => Driver.Footnotes.normOp j
   | "ping" => pure (Json.str "pong")
   | _ => throw s!"unknown op {op}"
 
